@@ -643,8 +643,8 @@ type Served struct {
 	PanicIn string // function in which the panic was raised (first non-runtime frame)
 }
 
-// panicOrigin returns the function that raised the panic: the first frame below the runtime's panic machinery.
-func panicOrigin(stack string) string {
+// PanicOrigin returns the function that raised the panic: the first frame below the runtime's panic machinery.
+func PanicOrigin(stack string) string {
 	seenPanic := false
 	for _, line := range strings.Split(stack, "\n") {
 		if line == "" || line[0] == '\t' || strings.HasPrefix(line, "goroutine ") {
@@ -671,7 +671,7 @@ func Serve(h http.Handler, req *http.Request) (s Served) {
 		defer func() {
 			if e := recover(); e != nil {
 				s.Panic = true
-				s.PanicIn = panicOrigin(string(debug.Stack()))
+				s.PanicIn = PanicOrigin(string(debug.Stack()))
 			}
 		}()
 		h.ServeHTTP(rw, req)
